@@ -116,8 +116,10 @@ def run_task(eng, prover, task, out):
         check_initialize(eng, prover, cname, out)
     elif what == "save":
         check_save_to_buffer(eng, prover, cname, out)
+        check_save_to_buffer(eng, prover, cname, out, via="_save")
     elif what == "load":
         check_load_from_buffer(eng, prover, cname, out)
+        check_load_from_buffer(eng, prover, cname, out, via="_load")
     elif what == "contexts":
         check_object_context_exit(eng, prover, cname, out)
         check_backend_context(eng, prover, cname, out)
@@ -262,6 +264,10 @@ def check_flush_buffer_def(eng, prover, cname, out):
         ("unforced-flush-leaves-a-buffered-collection", lambda pre, x, r: z3.And(z3.Not(force), E(pre)[0],
                                                                                 Buf(eng, x, cname).has(f0), nf(x))),
         ("unchanged-copy", lambda pre, x, r: z3.And(force, E(pre)[0], z3.Not(E(pre)[1]), nf(x))),
+        ("unforced-flush-of-an-unbuffered-collection", lambda pre, x, r: z3.And(
+            z3.Not(force), E(pre)[0], E(pre)[1], z3.Not(E(pre)[2]), nf(x), z3.Select(pre.g["NodeBuf"], a_c) <= 0,
+            as_int(pre.rec(pre.statics[(cname, "_buffer_context")]).fields["_count"]) <= 0,
+            z3.BoolVal(not isinstance(r, Raise)))),
     ]
     n = verify_contract(eng, prover, "C05", f"{cname}._flush_buffer@{fi.qualname}", fi,
                         eng.contracts["FileBufferedCollection._flush_buffer"], st, [ClassV(s.cls), Bv(force), Bv(retain)],
@@ -381,10 +387,14 @@ def check_initialize(eng, prover, cname, out):
     out["functions"][fi.qualname] = fi.sha()
 
 
-def check_save_to_buffer(eng, prover, cname, out):
+def check_save_to_buffer(eng, prover, cname, out, via="_save_to_buffer"):
+    """via="_save": the same clauses for the class's _save entered in BUFFERED mode (the dispatch `if self._is_buffered:
+    self._save_to_buffer() else: self._save_to_resource()` is part of what is verified)."""
     s, st, fn = scene_for(eng, cname)
-    fi = eng.P.lookup_method(s.cls, "_save_to_buffer")
-    base = f"{cname}._save_to_buffer@{fi.qualname}/root"
+    fi = eng.P.lookup_method(s.cls, via)
+    base = f"{cname}.{via}{'[buffered]' if via == '_save' else ''}@{fi.qualname}/root"
+    if via == "_save":
+        st.assume(is_buffered(st, s))
     g0 = s.other_file
     st.ghost["skolem_files"] = [g0]
     pre = st.copy()
@@ -420,10 +430,14 @@ def check_save_to_buffer(eng, prover, cname, out):
     out["functions"][fi.qualname] = fi.sha()
 
 
-def check_load_from_buffer(eng, prover, cname, out):
+def check_load_from_buffer(eng, prover, cname, out, via="_load_from_buffer"):
+    """via="_load": the same clauses (plus: the object's view is the logical content afterwards) for the class's
+    _load entered in BUFFERED mode."""
     s, st, fn = scene_for(eng, cname)
-    fi = eng.P.lookup_method(s.cls, "_load_from_buffer")
-    base = f"{cname}._load_from_buffer@{fi.qualname}/root"
+    fi = eng.P.lookup_method(s.cls, via)
+    base = f"{cname}.{via}{'[buffered]' if via == '_load' else ''}@{fi.qualname}/root"
+    if via == "_load":
+        st.assume(is_buffered(st, s))
     g0 = s.other_file
     st.ghost["skolem_files"] = [g0]
     pre = st.copy()
@@ -451,9 +465,13 @@ def check_load_from_buffer(eng, prover, cname, out):
         # the logical content is unchanged by a load (a new entry holds what the file holds)
         prover.goal(f"C05/{base}/ensures:logical-content-kept", x,
                     z3.Implies(L != VAbsent, pyeq(bq.logical(fn), L)), info=ctx)
+        if via == "_load":
+            prover.goal(f"C05/{base}/ensures:view-is-the-logical-content", x,
+                        z3.Implies(L != VAbsent, pyeq(x.sel("View", n), L)), info=ctx)
         if bp.strategy == "serialized":
-            prover.goal(f"C05/{base}/ensures:result-is-the-logical-content", x,
-                        z3.Implies(L != VAbsent, pyeq(to_val(res), L)), info=ctx)
+            if via != "_load":
+                prover.goal(f"C05/{base}/ensures:result-is-the-logical-content", x,
+                            z3.Implies(L != VAbsent, pyeq(to_val(res), L)), info=ctx)
             prover.goal(f"C17/{base}/new-entry-starts-unchanged", x,
                         z3.Implies(z3.Not(bp.has(fn)), z3.Not(bq.changed(fn))), info=ctx)
         else:
